@@ -85,7 +85,23 @@ def c_traj(ctx, case):
     for j in range(1, K + 1):
         new, counts, d_prev, margin, lab = ref.kmeans_step(X, cents[j - 1])
         if margin < 1e-6:
-            ctx.discard("near-tie between two centroids")
+            # exactly tied samples may go to any ONE of their nearest centroids: the result must be the set of
+            # means of SOME consistent assignment (a tied sample summed into two clusters is none)
+            cands, n_tied, ambiguous = ref.kmeans_tie_candidates(X, cents[j - 1])
+            if ambiguous or not cands:
+                ctx.discard("near-tie between two centroids")
+            ctx.event("exact-tie steps")
+            ok = False
+            for cand, clab in cands:
+                ne_c = ~np.isnan(cand[:, 0])
+                if np.allclose(cents[j][ne_c], cand[ne_c], rtol=1e-9, atol=1e-12 * sc):
+                    ok, new, lab = True, cand, clab
+                    counts = np.array([(clab == i).sum() for i in range(k)])
+                    break
+            if not ok:
+                ctx.fail("iteration %d: centroids %s are not the cluster means of ANY assignment of the %d exactly tied "
+                         "sample(s) to one of their nearest centroids" % (j, np.round(cents[j], 6).tolist(), n_tied),
+                         "value:centroid = mean of its nearest rows (ties)")
         labs.append(lab)
         if (counts == 0).any():
             empty_seen = True
